@@ -318,7 +318,7 @@ def run_sessions(ctx: Ctx, quick: int, thorough: int) -> None:
             raise Violation(msg, {"kind": "session", "tree_pickle": pickle_b64(tree), "steps": [list(x) for x in steps],
                                   "files": files})
 
-    hyp_run(ctx, session(), body_session, ctx.n(quick, thorough), tag="session")
+    hyp_run(ctx, session(), body_session, ctx.n(quick, thorough), tag="session", shrink_cap=40)
 
 
 def run_shard(ctx: Ctx) -> None:
@@ -339,7 +339,7 @@ def run_shard(ctx: Ctx) -> None:
             raise Violation(msg, {"tree_pickle": pickle_b64(tree), "fault": list(fault) if fault else None,
                                   "relative": rel, "files": files})
 
-    hyp_run(ctx, case(), body, ctx.n(3000, 25000))
+    hyp_run(ctx, case(), body, ctx.n(3000, 25000), shrink_cap=150)
 
 
 def replay(c: Dict[str, Any]) -> Optional[str]:
